@@ -524,11 +524,17 @@ def run_frommat(inp):
     rec = []
     with patched_svd(np.linalg, "svd", rec):
         mpo = MPO.from_matrix(m, 2, max_bond=cap, cutoff=cutoff)
+    if rng.random() < 0.3 and rec:
+        # cutoff equal, bit for bit, to a singular value of the first splitting step (`s > cutoff` is strict)
+        cutoff = float(rec[0][rng.randrange(len(rec[0]))])
+        rec = []
+        with patched_svd(np.linalg, "svd", rec):
+            mpo = MPO.from_matrix(m, 2, max_bond=cap, cutoff=cutoff)
     bonds = [t.shape[3] for t in mpo.tensors[:-1]]
     out = []
     for s, b in zip(rec, bonds):
         out.append({"req": f"frommat {ib.frac(cutoff)} {'none' if cap is None else cap} | {ib.fracs(s)}", "impl": str(b),
-                    "oracle": None, "edge": bool(any(abs(float(v) - cutoff) <= 1e-12 * cutoff for v in s) if cutoff else False),
+                    "oracle": None, "edge": bool(any(abs(float(v) - cutoff) <= 1e-12 * cutoff and float(v) != cutoff for v in s) if cutoff else False),
                     "kind": "frommat-call", "sig": f"frommat:{len(s)}:{b}:{cap}", "nontrivial": b < len(s)})
     back = mpo.to_matrix()
     probs = []
@@ -554,8 +560,17 @@ def run_dtheta(inp):
     with patched_svd(np.linalg, "svd", rec):
         u, m = mpo_utils_mod.decompose_theta(theta, thr)
     s = rec[0]
+    exact_tie = rng.random() < 0.35
+    if exact_tie:
+        # the threshold IS one of the singular values (bit for bit): `s > threshold` is strict, the equal value is discarded
+        thr = float(s[rng.randrange(len(s))])
+        rec = []
+        with patched_svd(np.linalg, "svd", rec):
+            u, m = mpo_utils_mod.decompose_theta(theta, thr)
+        s = rec[0]
+    near = any(abs(float(v) - thr) <= 1e-12 * thr and float(v) != thr for v in s)
     return {"req": f"dtheta {ib.frac(thr)} | {ib.fracs(s)}", "impl": str(u.shape[3]), "oracle": None,
-            "edge": bool(any(abs(float(v) - thr) <= 1e-12 * thr for v in s)), "sig": f"dtheta:{len(s)}:{u.shape[3]}",
+            "edge": bool(near), "sig": f"dtheta:{len(s)}:{u.shape[3]}:{exact_tie}",
             "nontrivial": u.shape[3] < len(s)}
 
 
